@@ -25,6 +25,15 @@
     rlwe.PartialTracesSum (InnerSum) core/rlwe/inner_sum.go:152-288
     rlwe.Element.Resize + Add's degree choice  core/rlwe/element.go:160-182, core/rlwe/evaluator.go:168-169
     ring.DivRoundByLastModulus / NTT  ring/scaling.go:93-147 (HEAD) and the version before commit 64e1afc
+  Degrees 0/1/2 (section "degrees"): `ckksAddProg` = ckks.Add/Sub with an element operand
+    (schemes/ckks/evaluator.go:62-80, 158-184: InitOutputBinaryOp, `opOut.Resize(degree, level)`, evaluateInPlace
+    with its copy of the higher-degree polynomials, the negation of Sub), `tensorProgD` = ckks.mulRelin /
+    bgv.tensorStandard incl. their "Plaintext (x) Ciphertext" branches; the degree of every object is a
+    STATIC attribute (`deg : object → Nat`) that `Element.Resize` updates — because the receiver may be the same
+    object as an operand, the degree the code reads AFTER the resize is the updated one.
+  Levels (section "shapes"): the list of the levels of `Value[0..degree]` of every object (`Shape`),
+    `resizeShape` = `Element.Resize` (core/rlwe/element.go:160-182) incl. its test of `Value[0]` only, and for every
+    modelled operation the sequence of `Resize` calls it makes on the receiver (`OpS.shapeAfter`).
   Core Lean only.
 -/
 namespace Lattigo.Store
@@ -54,6 +63,8 @@ inductive Fn
   | mulMAdd   -- MulCoeffsMontgomeryThenAdd(a, b, acc)
   | add       -- ring.Add
   | ev        -- the `evaluate` callback of evaluateInPlace (Add or Sub)
+  | evs       -- the `evaluate` callback of ckks.Sub in the degree-aware program `ckksAddProg` (ring.Sub)
+  | neg       -- ring.Neg (ckks.Sub negates the higher-degree polynomials taken from op1)
   | ratio     -- ⌊scaleHi / scaleLo⌋ as big.Int
   | scal      -- eval.Mul(ct, ratioInt, ·) on one polynomial
   | smax      -- Scale.Max
@@ -452,6 +463,248 @@ def addIntoOld {α : Type} (zero : α) (add : α → α → α) (op0 op1 out : L
   let s := addLists add op0 op1
   s ++ out'.drop s.length
 
+/-! ### degrees 0/1/2 in the pointer-branching routines -/
+
+/-- `lo, lo+1, …, lo+cnt-1` -/
+def fromTo (lo : Nat) : Nat → List Nat
+  | 0 => []
+  | cnt + 1 => lo :: fromTo (lo + 1) cnt
+
+/-- degree part of `Element.Resize(degree, ·)` on object `o` of current degree `d` (element.go:170-177):
+    the polynomials `d+1 … degree` are freshly allocated, i.e. zero; a larger degree is cut (no write) -/
+def resizeSteps (o d degree : Nat) : Prog :=
+  (fromTo (d + 1) (degree - d)).map fun i => st (L o i) .zero []
+
+def setDeg (deg : Nat → Nat) (o d : Nat) : Nat → Nat := fun x => if x = o then d else deg x
+
+/-- `eval.Mul(src, ratioInt, dst)` on ALL `dsrc+1` polynomials of `src` (ckks.Mul, scalar case: it resizes
+    `dst` to the degree of `src` — no change here: `dst` is `src`, or the view `BuffCt.Value[:dsrc+1]`) -/
+def ckksScaleInto (src dst dsrc : Nat) (dstScale : Bool) : Prog :=
+  (fromTo 0 (dsrc + 1)).map (fun i => st (L dst i) .scal [L bct fScale, L src i]) ++
+  (if dstScale then [st (L dst fScale) .copy [L src fScale]] else [])
+
+/-- the three cases of `evaluateInPlace` (evaluator.go:263-398): steps before the loop, object of `tmp0`,
+    object of `tmp1`; `d0 d1` are the degrees AFTER the receiver was resized -/
+def ckksAlign (p : Pat) (d0 d1 : Nat) (cmp : Ordering) : Prog × Nat × Nat :=
+  let a := p.op0; let b := p.op1; let o := p.out
+  let ratioAB := st (L bct fScale) .ratio [L a fScale, L b fScale]
+  let ratioBA := st (L bct fScale) .ratio [L b fScale, L a fScale]
+  if o = a then
+    match cmp with
+    | .gt => ([ratioAB] ++ ckksScaleInto b bct d1 false, a, bct)
+    | .lt => ([ratioBA] ++ ckksScaleInto a a d0 true ++ [st (L o fScale) .copy [L b fScale]], a, b)
+    | .eq => ([], a, b)
+  else if o = b then
+    match cmp with
+    | .gt => ([ratioAB] ++ ckksScaleInto b o d1 true ++ [st (L o fScale) .copy [L a fScale]], a, b)
+    | .lt => ([ratioBA] ++ ckksScaleInto a bct d0 false, bct, b)
+    | .eq => ([], a, b)
+  else
+    match cmp with
+    | .gt => ([ratioAB] ++ ckksScaleInto b bct d1 false, a, bct)
+    | .lt => ([ratioBA] ++ ckksScaleInto a bct d0 false, bct, b)
+    | .eq => ([], a, b)
+
+/-- ckks.Add / ckks.Sub (`sub`) with an element operand, any degrees (evaluator.go:62-80 / 158-184 and
+    evaluateInPlace 246-431).  `deg` gives the degree of every object BEFORE the call.
+      degree := max(op0.Degree(), op1.Degree());  opOut.Resize(degree, level)
+      evaluateInPlace: scale alignment (`ckksAlign`), `evaluate` on the common polynomials, Scale,
+        then `if c0.Degree() > c1.Degree() && &tmp0.Element != opOut.El()` copy of tmp0's higher polynomials,
+        `else if c1.Degree() > c0.Degree() && &tmp1.Element != opOut.El()` copy of tmp1's — `tmp1` is a fresh
+        `&rlwe.Ciphertext{Element: *c1}`, so that second pointer test is always true (with `opOut == op1` the
+        polynomials are copied onto themselves);
+      Sub: `if op0.Degree() < op1.Degree()` (degrees read after the resize) negate the higher polynomials. -/
+def ckksAddProg (sub : Bool) (p : Pat) (deg : Nat → Nat) (cmp : Ordering) : Prog :=
+  let a := p.op0; let b := p.op1; let o := p.out
+  let evf : Fn := if sub then .evs else .ev
+  let degree := max (deg a) (deg b)
+  let deg' := setDeg deg o degree
+  let d0 := deg' a; let d1 := deg' b
+  let mn := min d0 d1
+  let al := ckksAlign p d0 d1 cmp
+  let t0 := al.2.1; let t1 := al.2.2
+  resizeSteps o (deg o) degree ++ al.1 ++
+  (fromTo 0 (mn + 1)).map (fun i => st (L o i) evf [L t0 i, L t1 i]) ++
+  [st (L o fScale) .smax [L a fScale, L b fScale]] ++
+  (if d0 > d1 ∧ t0 ≠ o then (fromTo (mn + 1) (d0 - mn)).map fun i => st (L o i) .copy [L t0 i]
+   else if d1 > d0 then (fromTo (mn + 1) (d1 - mn)).map fun i => st (L o i) .copy [L t1 i]
+   else []) ++
+  (if sub ∧ d0 < d1 then (fromTo (d0 + 1) (d1 - d0)).map fun i => st (L o i) .neg [L o i] else [])
+
+/-- result of building the program of a call: the code may reject the operands (`err`) or panic -/
+inductive Gen (β : Type)
+  | ok (x : β) | err | panic
+deriving DecidableEq, Repr
+
+/-- ckks.Add/Sub: InitOutputBinaryOp rejects two degree-0 operands; result degree = max -/
+def ckksAddGen (sub : Bool) (p : Pat) (deg : Nat → Nat) (cmp : Ordering) : Gen (Prog × Nat) :=
+  if deg p.op0 + deg p.op1 = 0 then .err
+  else .ok (ckksAddProg sub p deg cmp, max (deg p.op0) (deg p.op1))
+
+/-- THE CODE BEFORE COMMIT e9e846c (fix C09-6; HEAD is `tensorGenDFixed`, kept for the counterexample):
+    ckks.Mul/MulRelin → mulRelin (`bgv = false`, evaluator.go:786-894) and bgv.Mul/MulRelin → tensorStandard
+    (`bgv = true`, evaluator.go:674-768) for operands of degree 0/1/2 and a receiver of any previous degree.
+    InitOutputBinaryOp(…, 2, …) rejects total degree 0 and > 2; bgv rejects op0 of degree 0 (fix C05-9).
+    * 1 ⊗ 1: `c0, c1 = opOut.Value[0], opOut.Value[1]` were taken BEFORE the receiver is resized to degree 2
+      (1 with relinearisation): a receiver of degree 0 PANICKED (index out of range) — finding
+      C09/mul-receiver-degree0-panics; otherwise `tensorProg`, preceded by the zero polynomial `Resize` appends.
+    * otherwise ("Plaintext (x) Ciphertext"): ckks — `MForm` of the degree-0 operand's polynomial into buffQ[0]
+      (op0's when op0 has degree 0, else op1's), `c1 :=` the other operand's polynomials, `opOut.Resize(max)`,
+      `opOut[i] = buffQ[0] · c1[i]`;  bgv — `opOut.Resize(op0.Degree())` FIRST, `buffQ[0] = T·op1[0]`,
+      `opOut[i] = op0[i] · buffQ[0]`. -/
+def tensorGenD (bgv : Bool) (relin : Bool) (p : Pat) (deg : Nat → Nat) : Gen (Prog × Nat) :=
+  let a := p.op0; let b := p.op1; let o := p.out
+  let d0 := deg a; let d1 := deg b
+  let pre : Fn := if bgv then .mulT else .mform
+  if d0 + d1 = 0 ∨ d0 + d1 > 2 then .err
+  else if bgv ∧ d0 = 0 then .err
+  else if d0 = 1 ∧ d1 = 1 then
+    if deg o = 0 then .panic
+    else .ok ((if relin then [] else resizeSteps o (deg o) 2) ++ tensorProg pre relin p, if relin then 1 else 2)
+  else
+    let scale := st (L o fScale) .smul [L a fScale, L b fScale]
+    if bgv then
+      .ok ([scale] ++ resizeSteps o (deg o) d0 ++ [st (L bq 0) pre [L b 0]] ++
+           (fromTo 0 (d0 + 1)).map (fun i => st (L o i) .mulM [L a i, L bq 0]), d0)
+    else if d0 = 0 then
+      .ok ([scale, st (L bq 0) pre [L a 0]] ++ resizeSteps o (deg o) (max d0 d1) ++
+           (fromTo 0 (d1 + 1)).map (fun i => st (L o i) .mulM [L bq 0, L b i]), max d0 d1)
+    else
+      .ok ([scale, st (L bq 0) pre [L b 0]] ++ resizeSteps o (deg o) (max d0 d1) ++
+           (fromTo 0 (d0 + 1)).map (fun i => st (L o i) .mulM [L bq 0, L a i]), max d0 d1)
+
+/-- HEAD (commit e9e846c, patch fixes/C09-6): the receiver is resized to degree 2 (1 with relinearisation) FIRST,
+    then `c0, c1 = opOut.Value[0], opOut.Value[1]`: a receiver of degree 0 is extended by zero polynomials like
+    any other; everything else as in `tensorGenD` -/
+def tensorGenDFixed (bgv : Bool) (relin : Bool) (p : Pat) (deg : Nat → Nat) : Gen (Prog × Nat) :=
+  if deg p.op0 = 1 ∧ deg p.op1 = 1 ∧ deg p.out = 0 ∧ ¬(bgv ∧ deg p.op0 = 0) then
+    .ok ((if relin then resizeSteps p.out 0 1 else resizeSteps p.out 0 2) ++
+         tensorProg (if bgv then .mulT else .mform) relin p, if relin then 1 else 2)
+  else tensorGenD bgv relin p deg
+
+/-! ### shapes: degree and levels of the receiver through the `Resize` calls of an operation -/
+
+/-- levels of `Value[0], Value[1], …` of an element (`level = len(Coeffs) - 1`); never empty -/
+abbrev Shape := List Nat
+
+def Shape.level (s : Shape) : Nat := s.headD 0
+def Shape.degree (s : Shape) : Nat := s.length - 1
+
+/-- rlwe.Element.Resize(degree, level) BEFORE COMMIT 114cfa0 (fix C09-7; HEAD is `resizeShapeFixed`, kept for
+    the counterexample):
+      if op.Level() != level { every polynomial is resized to level }      — `op.Level()` is `Value[0]`'s
+      cut to degree+1 polynomials, or append new polynomials AT `level` -/
+def resizeShape (s : Shape) (degree level : Nat) : Shape :=
+  let s1 := if s.level = level then s else s.map fun _ => level
+  if s1.length > degree + 1 then s1.take (degree + 1)
+  else s1 ++ List.replicate (degree + 1 - s1.length) level
+
+/-- rlwe.Element.Resize(degree, level) at HEAD (commit 114cfa0, core/rlwe/element.go:160-182): EVERY polynomial is
+    resized to `level`, then the element is cut to degree+1 polynomials or extended by polynomials at `level` -/
+def resizeShapeFixed (s : Shape) (degree level : Nat) : Shape :=
+  let s1 := s.map fun _ => level
+  if s1.length > degree + 1 then s1.take (degree + 1)
+  else s1 ++ List.replicate (degree + 1 - s1.length) level
+
+def setSh (sh : Nat → Shape) (o : Nat) (s : Shape) : Nat → Shape := fun x => if x = o then s else sh x
+
+/-- the operations of the `shape` tie -/
+inductive OpS
+  | addLike            -- ckks/bgv Add, Sub with an element operand
+  | ckksMul (relin : Bool)     -- ckks.Mul / MulRelin with an element operand
+  | bgvMul (relin : Bool)      -- bgv.Mul / MulRelin (standard tensoring)
+  | bgvMulSI (relin : Bool)    -- bgv.MulScaleInvariant / MulRelinScaleInvariant
+  | unaryBig           -- bgv.Add / bgv.Mul with a *big.Int (InitOutputUnaryOp)
+  | rlweAut            -- rlwe.Automorphism (galEl ≠ 1)
+  | rlwePTS            -- rlwe.PartialTracesSum
+deriving DecidableEq, Repr
+
+/-- which of the two patches reported by this property the code under /repo carries: the model follows HEAD
+    (both since commits e9e846c / 114cfa0).
+    `headFix6` = fixes/C09-6 (the receiver is resized before `c0, c1` are taken: no panic on a degree-0
+    receiver), `headFix7` = fixes/C09-7 (`Element.Resize` resizes every polynomial). -/
+def headFix6 : Bool := true
+def headFix7 : Bool := true
+
+/-- the receiver's shape after the `Resize` calls of the operation, in program order; the degrees and
+    levels of the operands are read from the CURRENT shapes (an operand that is the receiver has been
+    resized with it).  `rs` is `Element.Resize` on shapes (`resizeShape`, or `resizeShapeFixed` with patch C09-7),
+    `fix6` says whether the products resize the receiver before they index it (patch C09-6). -/
+def OpS.resizesG (rs : Shape → Nat → Nat → Shape) (fix6 : Bool) (op : OpS) (p : Pat) (sh : Nat → Shape) : Gen Shape :=
+  let a := p.op0; let b := p.op1; let o := p.out
+  let d0 := (sh a).degree; let d1 := (sh b).degree
+  let lvl3 := min (min (sh a).level (sh b).level) (sh o).level
+  match op with
+  | .addLike =>
+    if d0 + d1 = 0 then .err
+    else .ok (rs (sh o) (max d0 d1) lvl3)
+  | .ckksMul relin =>
+    if d0 + d1 = 0 ∨ d0 + d1 > 2 then .err else
+    let sh1 := setSh sh o (rs (sh o) (sh o).degree lvl3)
+    let level := (sh1 o).level
+    if (sh1 a).degree = 1 ∧ (sh1 b).degree = 1 then
+      if fix6 = false ∧ (sh1 o).degree = 0 then .panic
+      else .ok (rs (sh1 o) (if relin then 1 else 2) level)
+    else .ok (rs (sh1 o) (max (sh1 a).degree (sh1 b).degree) level)
+  | .bgvMul relin =>
+    if d0 + d1 = 0 ∨ d0 + d1 > 2 then .err else
+    let sh1 := setSh sh o (rs (sh o) (sh o).degree lvl3)
+    let level := (sh1 o).level
+    if (sh1 a).degree = 0 then .err
+    else if (sh1 a).degree = 1 ∧ (sh1 b).degree = 1 then
+      if fix6 = false ∧ (sh1 o).degree = 0 then .panic
+      else .ok (rs (sh1 o) (if relin then 1 else 2) level)
+    else .ok (rs (sh1 o) (sh1 a).degree level)
+  | .bgvMulSI relin =>
+    if d0 + d1 = 0 ∨ d0 + d1 > 2 then .err else
+    let sh1 := setSh sh o (rs (sh o) (sh o).degree lvl3)
+    let level := (sh1 o).level
+    if (sh1 a).degree = 0 then .err
+    else if (sh1 b).degree = 0 then .ok (rs (sh1 o) (sh1 a).degree level)
+    else .ok (rs (sh1 o) (if relin then 1 else 2) level)
+  | .unaryBig => .ok (rs (sh o) d0 (min (sh a).level (sh o).level))
+  | .rlweAut =>
+    if d0 ≠ 1 ∨ (sh o).degree ≠ 1 then .err
+    else .ok (rs (sh o) (sh o).degree (min (sh a).level (sh o).level))
+  | .rlwePTS =>
+    if d0 ≠ 1 then .err else .ok (rs (sh o) 1 (sh a).level)
+
+/-- the receiver's shape after the call: every polynomial of the receiver is then written by ring
+    operations at the level of `Value[0]`; a polynomial that `Resize` left SHORTER than that makes them
+    panic (index out of range) -/
+def OpS.shapeAfterG (rs : Shape → Nat → Nat → Shape) (fix6 : Bool) (op : OpS) (p : Pat) (sh : Nat → Shape) : Gen Shape :=
+  match op.resizesG rs fix6 p sh with
+  | .ok s => if s.any (· < s.level) then .panic else .ok s
+  | r => r
+
+/-- the code BEFORE commits e9e846c / 114cfa0 (without the two patches) -/
+def OpS.shapeAfter (op : OpS) (p : Pat) (sh : Nat → Shape) : Gen Shape := op.shapeAfterG resizeShape false p sh
+
+/-- the code WITH patches C09-6 and C09-7 (= HEAD) -/
+def OpS.shapeAfterFixed (op : OpS) (p : Pat) (sh : Nat → Shape) : Gen Shape := op.shapeAfterG resizeShapeFixed true p sh
+
+/-- the code at HEAD -/
+def OpS.shapeAfterHead (op : OpS) (p : Pat) (sh : Nat → Shape) : Gen Shape :=
+  op.shapeAfterG (if headFix7 then resizeShapeFixed else resizeShape) headFix6 p sh
+
+/-- the level the documentation promises for the receiver: `min(op0.Level(), op1.Level(), opOut.Level())`
+    (InitOutputBinaryOp / InitOutputUnaryOp), the input's level for PartialTracesSum -/
+def OpS.docLevel (op : OpS) (l0 l1 lOut : Nat) : Nat :=
+  match op with
+  | .unaryBig | .rlweAut => min l0 lOut
+  | .rlwePTS => l0
+  | _ => min (min l0 l1) lOut
+
+/-- the degree the receiver must have after an accepted call -/
+def OpS.docDegree (op : OpS) (d0 d1 dOut : Nat) : Nat :=
+  match op with
+  | .addLike => max d0 d1
+  | .ckksMul relin => if d0 = 1 ∧ d1 = 1 then (if relin then 1 else 2) else max d0 d1
+  | .bgvMul relin | .bgvMulSI relin => if d0 = 1 ∧ d1 = 1 then (if relin then 1 else 2) else d0
+  | .unaryBig => d0
+  | .rlweAut => dOut
+  | .rlwePTS => 1
+
 /-! ### the interpretation used by the driver and the counterexamples: `Int`, every symbol a
     different affine/multiplicative map so that distinct expressions get distinct values on the
     test store -/
@@ -465,6 +718,8 @@ def intFn : Fn → List Int → Int
   | .mulMAdd, [c, y, acc] => acc + c * y
   | .add, [x, y] => x + y
   | .ev, [x, y] => x + y
+  | .evs, [x, y] => x - y
+  | .neg, [x] => -x
   | .ratio, [s, t] => s / t
   | .scal, [r, x] => r * x
   | .smax, [s, t] => max s t
@@ -586,5 +841,63 @@ def predictAddHistory (d0 d1 dOut : Nat) : Outcome :=
   let r := addInto (0 : Int) (· + ·) (mk 100 d0) (mk 200 d1) (mk 900 dOut)
   let f := addInto (0 : Int) (· + ·) (mk 100 d0) (mk 200 d1) (mk 0 (max d0 d1) |>.map fun _ => 0)
   if r == f then .sameAsFresh else .differs
+
+/-! ### predictions for the degree-aware tie lines -/
+
+/-- the degree-aware operations the driver knows -/
+inductive OpD
+  | ckksAdd | ckksSub | ckksMul | ckksMulRelin | bgvMul | bgvMulRelin
+deriving DecidableEq, Repr
+
+def OpD.gen (op : OpD) (p : Pat) (deg : Nat → Nat) (cmp : Ordering) : Gen (Prog × Nat) :=
+  match op with
+  | .ckksAdd => ckksAddGen false p deg cmp
+  | .ckksSub => ckksAddGen true p deg cmp
+  | .ckksMul => if headFix6 then tensorGenDFixed false false p deg else tensorGenD false false p deg
+  | .ckksMulRelin => if headFix6 then tensorGenDFixed false true p deg else tensorGenD false true p deg
+  | .bgvMul => if headFix6 then tensorGenDFixed true false p deg else tensorGenD true false p deg
+  | .bgvMulRelin => if headFix6 then tensorGenDFixed true true p deg else tensorGenD true true p deg
+
+inductive OutcomeD | sameAsFresh | differs | err | panic
+deriving DecidableEq, Repr
+
+/-- degrees of the objects of a pattern: role op0 has degree `d0`, a distinct op1 `d1`, a distinct
+    receiver `dOut` -/
+def patDeg (p : Pat) (d0 d1 dOut : Nat) : Nat → Nat := fun x =>
+  if x = p.op0 then d0 else if x = p.op1 then d1 else if x = p.out then dOut else 0
+
+/-- model prediction for `aliasd`: the call under the pattern (receiver of previous degree `dOut` when it is
+    a distinct object) against the all-distinct call into a fresh receiver of the result's degree -/
+def predictAliasD (op : OpD) (al : Alias) (d0 d1 dOut : Nat) (s0 s1 : Int) : OutcomeD :=
+  let p := al.pat
+  let d : Pat := ⟨20, 21, 22⟩
+  let d1' := if p.op1 = p.op0 then d0 else d1
+  let σp := patStore p s0 s1
+  let σd : Store Int := ⟨fun l =>
+    if l.obj = 20 then σp ⟨p.op0, l.fld⟩ else if l.obj = 21 then σp ⟨p.op1, l.fld⟩
+    else if l.obj = 22 then 0 else testStore l⟩
+  let cmp := intI.cmp (σp (L p.op0 fScale)) (σp (L p.op1 fScale))
+  match op.gen p (patDeg p d0 d1 dOut) cmp with
+  | .err => .err
+  | .panic => .panic
+  | .ok (prog, dres) =>
+    match op.gen d (patDeg d d0 d1' 2) cmp with
+    | .ok (_, dref) =>
+      match op.gen d (patDeg d d0 d1' dref) cmp with
+      | .ok (progRef, dref') =>
+        let rp := run intI prog σp
+        let rd := run intI progRef σd
+        if dres == dref' && (fScale :: fromTo 0 (dres + 1)).all (fun f => rp ⟨p.out, f⟩ == rd ⟨22, f⟩)
+        then .sameAsFresh else .differs
+      | _ => .differs
+    | _ => .differs
+
+/-- shapes of the objects of a pattern -/
+def patShape (p : Pat) (s0 s1 sOut : Shape) : Nat → Shape := fun x =>
+  if x = p.op0 then s0 else if x = p.op1 then s1 else if x = p.out then sOut else [0]
+
+/-- model prediction for `shape`: the receiver's shape after the call (code at HEAD) -/
+def predictShape (op : OpS) (al : Alias) (s0 s1 sOut : Shape) : Gen Shape :=
+  op.shapeAfterHead al.pat (patShape al.pat s0 s1 sOut)
 
 end Lattigo.Store
